@@ -118,7 +118,6 @@ func (manager *TaskManager) Create(pip pipservices.Pip) (result pipservices.Task
 		return nil, err
 	}
 	// add oLogger to oBroadcast
-	manager.tasks[taskname] = task
 	if err = manager.validWaitList([]string{taskname}, task, 100); err != nil {
 		childScope.Close()
 		return nil, err
@@ -127,6 +126,9 @@ func (manager *TaskManager) Create(pip pipservices.Pip) (result pipservices.Task
 		childScope.Close()
 		return nil, err
 	}
+	// register the task only when it is accepted: a rejected task never runs, so nobody
+	// would ever release its latch and Wait would block on it forever
+	manager.tasks[taskname] = task
 	manager.wg.Add(1)
 	return task, nil
 }
